@@ -309,10 +309,10 @@ def run_shard(args):
         if len(out["samples"]) < 2:
             out["samples"].append({"variant": variant, "templates": sorted(tmpl), "file_head": text[:1400]})
     # ---- real sessions: the only edit allowed outside snapshot arguments is the added import line
-    nreal = {"quick": 1 if args.shard < 6 else 0, "thorough": 12}[tier]
+    nreal = {"quick": 1 if args.shard < 9 else 0, "thorough": 12}[tier]
     for c in range(nreal):
         rng = random.Random(f"{args.seed}/{PROP}/import/{args.shard}/{c}")
-        real_session_import_case(rng, out, C)
+        real_session_import_case(rng, out, C, idx=args.shard if tier == "quick" else None)
     out["signatures"] = sorted(out["signatures"])
     return out
 
@@ -342,10 +342,10 @@ class _DropAddedImports(ast.NodeTransformer):
         return node
 
 
-def real_session_import_case(rng, out, C):
+def real_session_import_case(rng, out, C, idx=None):
     from .. import session
 
-    hname, head = rng.choice(IMPORT_HEADS)
+    hname, head = rng.choice(IMPORT_HEADS) if idx is None else IMPORT_HEADS[idx % len(IMPORT_HEADS)]
     tests = ""
     kinds = rng.sample(["external", "hasrepr", "plain"], rng.randint(1, 3))
     if "hasrepr" in kinds:
@@ -383,6 +383,31 @@ def real_session_import_case(rng, out, C):
     # the original may already import the names: dropped on both sides
     if a != b:
         out["violations"].append({"kind": "syntax-tree-outside-snapshot-arguments-changed(real session)", "detail": {**base, "new_head": new[:600]}, "witness": wit, "finding": None})
+    # byte level (no whole-file formatting): besides the masked snapshot arguments only whole lines
+    # `from inline_snapshot import external|HasRepr` (and blank lines) may be added, nothing removed or moved
+    import black
+    import difflib
+
+    try:
+        clean = black.format_str(src, mode=black.FileMode()) == src
+    except Exception:
+        clean = False
+    if not clean:
+        try:
+            mo = mask(src, call_spans(src)[0]).splitlines()
+            mn = mask(new, call_spans(new)[0]).splitlines()
+            bad = []
+            for tag, i1, i2, j1, j2 in difflib.SequenceMatcher(None, mo, mn, autojunk=False).get_opcodes():
+                if tag == "equal":
+                    continue
+                removed, added = mo[i1:i2], mn[j1:j2]
+                if removed or any(ln.strip() not in ("", "from inline_snapshot import external", "from inline_snapshot import HasRepr") for ln in added):
+                    bad.append({"removed": removed[:3], "added": added[:3]})
+            C["import_byte_checks"] = C.get("import_byte_checks", 0) + 1
+            if bad:
+                out["violations"].append({"kind": "bytes-outside-snapshot-arguments-changed(real session)", "detail": {**base, "changes": bad[:3]}, "witness": wit, "finding": None})
+        except SyntaxError:
+            pass
     if r2.exit != 0:
         out["violations"].append({"kind": "rewritten-file-does-not-run(real session)", "detail": {**base, "exit": r2.exit, "stdout_tail": r2.stdout[-500:], "new_head": new[:500]}, "witness": wit, "finding": None})
 
